@@ -1,8 +1,21 @@
-"""MANIFEST.setup_cmd: build the harness, regenerate Gen/, full Coq build."""
+"""MANIFEST.setup_cmd: build the harness, regenerate Gen/, build the Coq files of every claimed property."""
+import importlib
+import json
+import os
+
 import vcheck as V
 
 
 def main():
+    manifest = json.load(open(os.path.join(V.VERIF, "MANIFEST.json")))
+    targets, vfiles = [], []
+    for chk in manifest["checks"]:
+        mod = importlib.import_module(chk["property_id"].lower())
+        prop = mod.PROP
+        for v in [prop.coq_props] + prop.coq_run + prop.extra_targets:
+            if v not in vfiles:
+                vfiles.append(v)
+                targets.append(v[:-2] + ".vo")
     with V.Lock("global"):
         ok, out = V.build_harness()
         if not ok:
@@ -12,13 +25,13 @@ def main():
         if not ok:
             print(out)
             return 1
-        ok, out = V.coq_make([])
+        ok, out = V.coq_make(targets)
         if not ok:
             print(out[-6000:])
             return 1
-        bad = V.gate()
+        bad = V.gate(vfiles)
         if bad:
             print("forbidden vernacular: %s" % bad)
             return 1
-    print("setup ok")
+    print("setup ok: %d coq targets" % len(targets))
     return 0
